@@ -471,7 +471,7 @@ func (cs *Contracts) parseContractFile(path, pkgPath string) error {
 			}
 			h.Label, h.E = c.Label, c.E
 			cur.Hooks = append(cur.Hooks, h)
-		case "nopanic", "models-panics", "trusted", "deterministic", "arith-checked":
+		case "nopanic", "models-panics", "trusted", "deterministic", "arith-checked", "readonly-receiver":
 			cur.Flags[word] = true
 		default:
 			problem(ln, "unknown clause %q", word)
